@@ -134,6 +134,19 @@ func c01get(idx int) c01case {
 		switch r.Intn(4) {
 		case 0:
 			f = rng.Pick(r, []float64{0, math.Copysign(0, -1), 1, -1, 0.1, 1e308, math.MaxFloat64, -math.MaxFloat64, math.SmallestNonzeroFloat64, 5e-324, 2.2250738585072014e-308, 1e21, 1e-7, 123456789.125, math.Pi})
+		case 1:
+			// the limits of the integer types (where a conversion to an integer and back goes wrong) and of the
+			// formats (where %f / %e / %g change their mind), each with its two neighbours, in both signs
+			f = rng.Pick(r, []float64{1 << 24, 1 << 31, 1 << 32, 1 << 52, 1 << 53, 1 << 62, 1 << 63, 1 << 64, 1 << 127, 1 << 128, 1e15, 1e16, 1e17, 1e20, 1e21, 1e22, 1e-4, 1e-5, 1e-6, 1e6, 999999.5, 1e7})
+			switch r.Intn(3) {
+			case 1:
+				f = math.Nextafter(f, math.Inf(1))
+			case 2:
+				f = math.Nextafter(f, 0)
+			}
+			if r.Bool() {
+				f = -f
+			}
 		default:
 			f = math.Float64frombits(r.U64())
 			for math.IsNaN(f) || math.IsInf(f, 0) {
